@@ -51,30 +51,26 @@ func PlainText(s string) bool {
 	return true
 }
 
-// ParseSnap parses the documented file layout strictly: a sequence of blocks
-// "\n[<id>]\n<body>\n---\n". Anything else is an error (torn write, residue).
+// ParseSnap parses the documented file layout: a sequence of entries
+// "[<id>]\n<body>\n---\n", separated by blank lines (the library writes one before
+// each entry; their number is not part of any property). Anything else between
+// entries is an error (torn write, residue of an older, longer file).
 func ParseSnap(b []byte) ([]ParsedEntry, error) {
 	s := string(b)
 	var out []ParsedEntry
 	if s == "" {
 		return out, nil
 	}
-	if !strings.HasSuffix(s, "\n") {
-		return nil, fmt.Errorf("file does not end in a newline")
-	}
 	lines := strings.Split(strings.TrimSuffix(s, "\n"), "\n")
 	i := 0
 	for i < len(lines) {
-		if lines[i] != "" {
-			return nil, fmt.Errorf("line %d: expected blank line before header, got %q", i+1, clip(lines[i]))
-		}
-		i++
-		if i >= len(lines) {
-			return nil, fmt.Errorf("line %d: header expected, got end of file", i+1)
+		if lines[i] == "" {
+			i++
+			continue
 		}
 		m := headerRE.FindStringSubmatch(lines[i])
 		if m == nil {
-			return nil, fmt.Errorf("line %d: header expected, got %q", i+1, clip(lines[i]))
+			return nil, fmt.Errorf("line %d: entry header expected, got %q", i+1, clip(lines[i]))
 		}
 		k, _ := strconv.Atoi(m[2])
 		e := ParsedEntry{ID: m[1] + " - " + m[2], Test: m[1], K: k}
